@@ -51,6 +51,9 @@ pub struct Case {
     /// rest with -c; 2 like 1, and the first command once more with -c (it is then planned twice)
     #[serde(default)]
     pub via_sequence: u8,
+    /// `--deps` is given although no target is named (mode Auto): still a run without targets
+    #[serde(default)]
+    pub deps_alone: bool,
 }
 
 pub fn strategy() -> impl Strategy<Value = Case> {
@@ -144,6 +147,7 @@ pub fn strategy() -> impl Strategy<Value = Case> {
                     }
                 }
             };
+            let deps_alone = mode == Mode::Auto && raw.perm.get(3).copied().unwrap_or(0) % 3 == 0;
             Case {
                 config,
                 state,
@@ -153,6 +157,7 @@ pub fn strategy() -> impl Strategy<Value = Case> {
                 failing,
                 explicit_defs,
                 via_sequence,
+                deps_alone,
             }
         })
 }
@@ -213,6 +218,7 @@ pub fn strategy_wide(max_width: usize) -> impl Strategy<Value = Case> {
                 failing: None,
                 explicit_defs: false,
                 via_sequence: 0,
+                deps_alone: mode_k == 1 && width % 2 == 0,
             }
         })
 }
@@ -371,7 +377,12 @@ pub fn check(case: &Case, w: usize) -> CheckResult {
     let idx = gen::index_of(cfg);
     let adj = model::dep_adj(cfg);
     let (selected, mode_name): (BTreeSet<String>, &str) = match &case.mode {
-        Mode::Auto => (ap.targets.iter().cloned().collect(), "auto"),
+        Mode::Auto => {
+            if case.deps_alone {
+                args.push("--deps".into());
+            }
+            (ap.targets.iter().cloned().collect(), if case.deps_alone { "auto+deps-flag" } else { "auto" })
+        }
         Mode::Targets(s) => {
             args.push("-t".into());
             args.extend(s.iter().cloned());
